@@ -190,6 +190,8 @@ struct Tag {
 struct XferSt {
     len: usize,
     cancelled: bool,
+    /// polls that still return Pending before the completion of the cancelled transfer is reported
+    late_left: u64,
 }
 
 struct FakeState {
@@ -207,6 +209,10 @@ struct FakeState {
     completions: Vec<(u64, usize)>,
     /// loop threads seen so far (one per `start_streaming_loop`), oldest first
     loop_threads: Vec<std::thread::ThreadId>,
+    /// libusb cancels asynchronously: the completion of a cancelled transfer is reported up to
+    /// `late_max` polls late (how many exactly: seeded per transfer)
+    late_max: u64,
+    late_seed: u64,
 }
 
 impl FakeState {
@@ -269,7 +275,7 @@ impl VerifUsb for FakeUsb {
         }
         let id = st.next_id;
         st.next_id += 1;
-        st.xfers.insert(id, XferSt { len, cancelled: false });
+        st.xfers.insert(id, XferSt { len, cancelled: false, late_left: 0 });
         st.order.push_back(id);
         sched.log(LOOP, format!("S{},{}", id - st.base_id, len));
         Ok(id)
@@ -284,8 +290,15 @@ impl VerifUsb for FakeUsb {
         if st.order.front() != Some(&id) {
             st.protocol_errors.push(format!("poll of transfer {rel} which is not the oldest outstanding one"));
         }
-        let cancelled = match st.xfers.get(&id) {
-            Some(x) => x.cancelled,
+        let cancelled = match st.xfers.get_mut(&id) {
+            Some(x) => {
+                if x.cancelled && x.late_left > 0 {
+                    x.late_left -= 1;
+                    sched.log(LOOP, format!("PL{rel}"));
+                    return VerifPoll::Pending;
+                }
+                x.cancelled
+            }
             None => {
                 st.protocol_errors.push(format!("poll of unknown transfer {rel}"));
                 sched.log(LOOP, format!("PC{rel}"));
@@ -325,8 +338,12 @@ impl VerifUsb for FakeUsb {
         let mut st = self.st.lock().unwrap();
         st.note_thread();
         let rel = id.wrapping_sub(st.base_id);
+        let late = if st.late_max == 0 { 0 } else { Rng::new(st.late_seed ^ id.wrapping_mul(0x9E37_79B9)).below(st.late_max + 1) };
         match st.xfers.get_mut(&id) {
-            Some(x) => x.cancelled = true,
+            Some(x) => {
+                x.cancelled = true;
+                x.late_left = late;
+            }
             None => st.protocol_errors.push(format!("cancel of unknown transfer {rel}")),
         }
         sched.log(LOOP, format!("C{rel}"));
@@ -583,6 +600,8 @@ struct Plan {
     ctl_mode: u8,
     /// call `start_streaming_loop` once more while the loop is running, after that many events
     start_again_at: Option<usize>,
+    /// completions of cancelled transfers are reported up to that many polls late
+    late_cancel: u64,
 }
 
 /// What survives a session: the scripted endpoint, the device and (unless dropped) the handle.
@@ -608,6 +627,8 @@ fn new_ctx() -> Ctx {
             protocol_errors: vec![],
             completions: vec![],
             loop_threads: vec![],
+            late_max: 0,
+            late_seed: 0,
         }),
     });
     let dev = Device::verif_new(
@@ -788,6 +809,8 @@ fn run_session(plan: &Plan, mut ctx: Ctx) -> (Outcome, Option<Ctx>) {
         st.pend_at = plan.pend_at.iter().copied().collect();
         st.submit_fail = plan.submit_fail.iter().copied().collect();
         st.submits = 0;
+        st.late_max = plan.late_cancel;
+        st.late_seed = plan.sched_seed;
         st.protocol_errors.clear();
         st.completions.clear();
     }
@@ -973,7 +996,7 @@ fn run_session(plan: &Plan, mut ctx: Ctx) -> (Outcome, Option<Ctx>) {
         if st.blocked[CTL] {
             if let Some(kc) = st.log.iter().position(|e| e == "KC") {
                 let since = st.loop_events.iter().filter(|i| **i > kc).count();
-                if since > 40 * (3 * plan.params.t() + 10) {
+                if since > 40 * ((3 + plan.late_cancel as usize) * plan.params.t() + 10) {
                     hang = Some(format!("stop/close/drop did not return although the loop performed {since} operations after the request"));
                     st.free_run = true;
                     sched.wake_all();
@@ -1157,6 +1180,8 @@ struct Spec {
     start_twice: bool,
     /// after the session ended with stop or close, a second session runs on the same handle
     restart: bool,
+    /// asynchronous cancellation: completions of cancelled transfers come up to that many polls late
+    late_cancel: u64,
 }
 
 impl Spec {
@@ -1164,7 +1189,7 @@ impl Spec {
         json!({"layout": self.layout, "cap": self.cap, "nframes": self.nframes, "fault": self.fault, "fframe": self.fframe,
                "fpart": self.fpart, "rx": self.rx, "stop_pm": self.stop_pm, "seed": self.seed.to_string(),
                "extra_faults": self.extra_faults, "kill": self.kill, "ctl_mode": self.ctl_mode,
-               "start_twice": self.start_twice, "restart": self.restart})
+               "start_twice": self.start_twice, "restart": self.restart, "late_cancel": self.late_cancel})
     }
     fn from_json(v: &Value) -> Spec {
         Spec {
@@ -1182,6 +1207,7 @@ impl Spec {
             ctl_mode: v["ctl_mode"].as_u64().unwrap_or(0) as u8,
             start_twice: v["start_twice"].as_bool().unwrap_or(false),
             restart: v["restart"].as_bool().unwrap_or(false),
+            late_cancel: v["late_cancel"].as_u64().unwrap_or(0),
         }
     }
 }
@@ -1385,6 +1411,7 @@ fn gen_plan(spec: &Spec) -> Plan {
         kill_at_top: spec.kill,
         ctl_mode: spec.ctl_mode % 3,
         start_again_at: None,
+        late_cancel: spec.late_cancel,
     };
 
     if spec.nframes > 0 {
@@ -1585,7 +1612,7 @@ fn oracle(plan: &Plan, out: &Outcome) -> Verdict {
                 v.push((json!({"kind": "stop-slow", "call": what}), format!("{what} took {:?}", out.stop_dur)));
             }
             let loop_after_kc = out.loop_events.iter().filter(|i| **i > kc).count();
-            let bound = 3 * t + 12;
+            let bound = 3 * t + 12 + plan.late_cancel as usize * t;
             if loop_after_kc > bound {
                 v.push((json!({"kind": "stop-unbounded", "call": what}), format!("{loop_after_kc} loop events after the {what} request (bound {bound})")));
             }
@@ -1620,7 +1647,7 @@ fn oracle(plan: &Plan, out: &Outcome) -> Verdict {
 
 fn model_request(plan: &Plan, out: &Outcome) -> String {
     let p = &plan.params;
-    let mut s = format!("c12 trace {} {} {} {} {} {} {} {} 5", profile(), p.ls, p.ts, p.ps, p.pc, p.f1, p.f2, plan.cap);
+    let mut s = format!("c12 trace {} {} {} {} {} {} {} {} 5 {}", profile(), p.ls, p.ts, p.ps, p.pc, p.f1, p.f2, plan.cap, plan.late_cancel);
     for it in &plan.script {
         match it {
             Item::Data(d) => {
@@ -1856,6 +1883,7 @@ fn main() {
                         ctl_mode: (grid % 3) as u8,
                         start_twice: grid % 5 == 0,
                         restart: grid % 4 == 0,
+                        late_cancel: grid % 3,
                     };
                     run_spec(&mut rep, &mut tot, &mut queue, &spec, "grid");
                 }
@@ -1882,6 +1910,7 @@ fn main() {
             ctl_mode: rng.below(3) as u8,
             start_twice: rng.chance(1, 4),
             restart: rng.chance(1, 3),
+            late_cancel: rng.below(4),
         };
         run_spec(&mut rep, &mut tot, &mut queue, &spec, "clean");
         if i % 100 == 99 {
@@ -1907,6 +1936,7 @@ fn main() {
             ctl_mode: rng.below(3) as u8,
             start_twice: rng.chance(1, 4),
             restart: rng.chance(1, 3),
+            late_cancel: rng.below(4),
         };
         run_spec(&mut rep, &mut tot, &mut queue, &spec, "random");
         if i % 200 == 199 {
@@ -1931,6 +1961,7 @@ fn main() {
             ctl_mode: rng.below(3) as u8,
             start_twice: false,
             restart: false,
+            late_cancel: rng.below(3),
         };
         run_spec(&mut rep, &mut tot, &mut queue, &spec, "thread-death");
     }
